@@ -1,0 +1,21 @@
+//go:build !verif
+
+package main
+
+import (
+	"github.com/cloudflare/pint/internal/checks"
+	"github.com/cloudflare/pint/internal/discovery"
+	"github.com/cloudflare/pint/internal/reporter"
+)
+
+// No-op stand-ins for the verification hooks in verif_on.go (build tag "verif").
+
+func verifEntries(_ []discovery.Entry) {}
+
+func verifSummary(_ reporter.Summary) {}
+
+func verifArrival(_ reporter.Report) {}
+
+func verifDispatch(_ discovery.Entry, _ checks.RuleChecker) {}
+
+func verifJitter(_ scanJob) {}
